@@ -57,13 +57,14 @@ structure Loc where
   pending : Bool := false
   deriving Repr, DecidableEq
 
-/-- the body of a region: effect on (thread-local state, the locked store) -/
-def body (cls : Classifier) : Act → Loc → Store → Loc × Store
-  | .consume _ cost cur d p, l, s =>
-    let r := Atp.consume cls s cost cur d p
+/-- the body of a region: effect on (thread-local state, the locked store).  `obs j` is the `on_state_change` observer
+    of store `j` (called inside the region, may raise: the call then raises after its mutations). -/
+def body (cls : Classifier) (obs : Nat → Obs) : Act → Loc → Store → Loc × Store
+  | .consume i cost cur d p, l, s =>
+    let r := Atp.consumeO cls (obs i) s cost cur d p
     (⟨l.rets ++ [retBool r.2.1], l.pending⟩, r.1)
-  | .regenerate _ n cur, l, s =>
-    let r := Atp.regenerate cls s n cur
+  | .regenerate i n cur, l, s =>
+    let r := Atp.regenerateO cls (obs i) s n cur
     (⟨l.rets ++ [retUnit r.2], l.pending⟩, r.1)
   | .convert _ n, l, s =>
     let r := Atp.convert s n
@@ -71,32 +72,32 @@ def body (cls : Classifier) : Act → Loc → Store → Loc × Store
   | .withdraw _ n cur, l, s =>
     let w := Atp.withdraw s n cur
     (⟨if w.2 then l.rets else l.rets ++ [.bool false], w.2⟩, w.1)
-  | .deposit _ n cur, l, s =>
+  | .deposit j n cur, l, s =>
     if l.pending then
-      let r := Atp.deposit cls s n cur
+      let r := Atp.depositO cls (obs j) s n cur
       (⟨l.rets ++ [match r.2 with | .ok _ => .bool true | .error e => .raised e], false⟩, r.1)
     else (l, s)
 
 /-- A region implements an action when it takes the action's lock and its lines — however many, however cut —
     compose to the action's body. -/
-def Implements (cls : Classifier) (r : Region Loc Store) (a : Act) : Prop :=
-  r.k = a.lock ∧ r.eff = body cls a
+def Implements (cls : Classifier) (obs : Nat → Obs) (r : Region Loc Store) (a : Act) : Prop :=
+  r.k = a.lock ∧ r.eff = body cls obs a
 
 /-- the canonical one-line cut -/
-def regionOf (cls : Classifier) (a : Act) : Region Loc Store := ⟨a.lock, [body cls a]⟩
+def regionOf (cls : Classifier) (obs : Nat → Obs) (a : Act) : Region Loc Store := ⟨a.lock, [body cls obs a]⟩
 
 /-- sequential reference: run a list of (thread, action) pairs atomically, in order -/
 structure World where
   st : Nat → Store
   locs : Nat → Loc
 
-def applyAct (cls : Classifier) (w : World) (t : Nat) (a : Act) : World :=
-  let r := body cls a (w.locs t) (w.st a.lock)
+def applyAct (cls : Classifier) (obs : Nat → Obs) (w : World) (t : Nat) (a : Act) : World :=
+  let r := body cls obs a (w.locs t) (w.st a.lock)
   ⟨upd1 w.st a.lock r.2, fun u => if u = t then r.1 else w.locs u⟩
 
-def runTrace (cls : Classifier) (w : World) : List (Nat × Act) → World
+def runTrace (cls : Classifier) (obs : Nat → Obs) (w : World) : List (Nat × Act) → World
   | [] => w
-  | (t, a) :: rest => runTrace cls (applyAct cls w t a) rest
+  | (t, a) :: rest => runTrace cls obs (applyAct cls obs w t a) rest
 
 end Operon.AtpConc
 
@@ -122,10 +123,10 @@ def AThread.toR (cut : Cut) (t : AThread) : RThread Loc Store := ⟨t.todo.map (
 def ACfg.toRCfg (cut : Cut) (ac : ACfg) : RCfg Loc Store := ⟨ac.st, ac.threads.map (AThread.toR cut)⟩
 
 /-- sequential semantics at the level of atomic actions -/
-inductive ActStep (cls : Classifier) : ACfg → ACfg → Prop
+inductive ActStep (cls : Classifier) (obs : Nat → Obs) : ACfg → ACfg → Prop
   | run {st pre post a as l} :
-      ActStep cls ⟨st, pre ++ ⟨a :: as, l⟩ :: post⟩
-        ⟨upd1 st a.lock (body cls a l (st a.lock)).2, pre ++ ⟨as, (body cls a l (st a.lock)).1⟩ :: post⟩
+      ActStep cls obs ⟨st, pre ++ ⟨a :: as, l⟩ :: post⟩
+        ⟨upd1 st a.lock (body cls obs a l (st a.lock)).2, pre ++ ⟨as, (body cls obs a l (st a.lock)).1⟩ :: post⟩
 
 def ACfg.done (ac : ACfg) : Prop := ∀ t ∈ ac.threads, t.todo = []
 
